@@ -60,7 +60,7 @@ def _operator(schema, name, kind, params, ret, retmod=SINGLE, sqlop=None, fields
     return _std(schema, node)
 
 
-def _function(schema, name, params, ret, retmod=SINGLE, sqlfunc=None, fields=()):
+def _function(schema, name, params, ret, retmod=SINGLE, sqlfunc=None, fields=(), named=()):
     cmds = []
     if not any(f == 'volatility' for f, _v in fields):
         cmds.append(qlast.SetField(name='volatility', value=qlast.Constant.string('Immutable')))
@@ -74,7 +74,8 @@ def _function(schema, name, params, ret, retmod=SINGLE, sqlfunc=None, fields=())
         cmds.append(qlast.SetField(name=f, value=val))
     node = qlast.CreateFunction(
         name=qlast.ObjectRef(module='std', name=name),
-        params=[qlast.FuncParam(name=n, type=_tn(t), typemod=m, kind=PK.PositionalParam) for n, t, m in params],
+        params=[qlast.FuncParam(name=n, type=_tn(t), typemod=m, kind=PK.PositionalParam) for n, t, m in params]
+        + [qlast.FuncParam(name=n, type=_tn(t), typemod=m, kind=PK.NamedOnlyParam, default=d) for n, t, m, d in named],
         returning=_tn(ret), returning_typemod=retmod,
         code=qlast.FunctionCode(language=qlast.Language.SQL, from_function=sqlfunc, from_expr=sqlfunc is None, code=None),
         commands=cmds)
@@ -115,6 +116,16 @@ def std_plus():
         s = _operator(s, '+', OPK.Infix, [('l', 'std::int64', SINGLE), ('r', 'std::int64', SINGLE)], 'std::int64', sqlop='+')
         s = _operator(s, '++', OPK.Infix, [('l', 'std::str', SINGLE), ('r', 'std::str', SINGLE)], 'std::str', sqlop='||')
         s = _function(s, 'count', [('s', A, SETOF)], 'std::int64', sqlfunc='count', fields=[('initial_value', 0)])
+        # runtime cardinality assertions (20-genericfuncs.edgeql): the compiler wraps required pointers in them
+        # when access policies may filter the target
+        _empty_str = lambda: qlast.TypeCast(type=_tn('std::str'), expr=qlast.Set(elements=[]))     # noqa: E731
+        s = _function(s, 'assert_exists', [('input', A, SETOF)], A, retmod=SETOF, fields=[('preserves_upper_cardinality', True)],
+                      named=[('message', 'std::str', OPT, _empty_str())])
+        s = _function(s, 'assert_single', [('input', A, SETOF)], A, retmod=OPT, fields=[('preserves_optionality', True)],
+                      named=[('message', 'std::str', OPT, _empty_str())])
+        s = _function(s, 'assert_distinct', [('input', A, SETOF)], A, retmod=SETOF,
+                      fields=[('preserves_optionality', True), ('preserves_upper_cardinality', True)],
+                      named=[('message', 'std::str', OPT, _empty_str())])
         # std::BaseObject.id as in edb/lib/std/60-baseobject.edgeql (required, read-only, generated default);
         # the exclusive constraint on it is omitted (concrete constraints need compiled expressions)
         s = _function(s, 'uuid_generate_v1mc', [], 'std::uuid', sqlfunc='edgedb.uuid_generate_v1mc',
@@ -316,14 +327,42 @@ def compile_sql(ir, **kw):
 _FRAGMENTS = {
     '0': lambda: qlast.Constant.integer(0),
     'std::uuid_generate_v1mc()': lambda: qlast.FunctionCall(func=('std', 'uuid_generate_v1mc'), args=[]),
+    '<std::str>{}': lambda: qlast.TypeCast(type=_tn('std::str'), expr=qlast.Set(elements=[])),
 }
+
+
+def _norm_fragment(txt: str) -> str:
+    key = ' '.join(txt.split())
+    while key.startswith('(') and key.endswith(')'):
+        depth = 0
+        for i, ch in enumerate(key):
+            depth += ch == '('
+            depth -= ch == ')'
+            if depth == 0 and i < len(key) - 1:
+                break
+        else:
+            key = key[1:-1].strip()
+            continue
+        break
+    return key
+
+
+def register_fragment(node):
+    """Makes the text the code generator prints for `node` parse back to (a copy of) `node`:
+    the table-driven stand-in for the parser then serves expressions the harness itself put into
+    the schema (policy conditions).  That the real parser reads that text the same way is
+    property C01 and is not decided here."""
+    import copy
+    from edb.edgeql import codegen
+    txt = codegen.generate_source(node, pretty=False)
+    _FRAGMENTS[_norm_fragment(txt)] = lambda node=node: copy.deepcopy(node)
 
 
 def _parse_fragment(source, filename=None):
     txt = source if isinstance(source, str) else getattr(source, 'text', lambda: None)()
     if txt is None:
         txt = str(source)
-    key = txt.strip()
+    key = _norm_fragment(txt)
     if key in _FRAGMENTS:
         return _FRAGMENTS[key]()
     raise NotImplementedError('native parser not available in this sandbox (fragment %r)' % (key[:40],))
